@@ -19,7 +19,7 @@ PID = "C17"
 PROPS_MODULE = "NumbersModel.Props.C17"
 THEOREMS = [f"NumbersModel.Props.C17.{t}" for t in (
     "load_error_closed", "load_error_closed_no_escalation", "open_error_closed", "store_blob_closed",
-    "store_blob_sniff_raises", "open_zipfile_translates")]
+    "store_blob_sniff_raises", "open_zipfile_translates", "document_open_closed", "document_open_ok")]
 PARTIAL: dict[str, str] = {}
 RULE = ("a case is one loading scenario: either a scripted assignment of an outcome (return value or one of ~22 exception "
         "classes) to every external call of the loader, run through the real ObjectStore/IWork code with those externals "
@@ -39,10 +39,15 @@ MANIFEST = {
             "_store_blob into its try, and rejects an empty object store. Tied to the code by scripted fault injection at "
             "every external call site and by byte-level faults (truncation at every length class, single/multiple bit "
             "flips, ~24 per-member faults, plist faults, structural faults) on fixtures, package folders and an "
-            "API-generated document, with all external answers recorded and replayed in the model.",
-    "note": "scope: an escaping exception counts iff ObjectStore.__init__ is on its traceback (i.e. it is raised while "
-            "loading the container); exceptions raised later by model.py/document.py lookups are late_failures. "
-            "str.lower() is modelled for ASCII; in-memory ZipFile lookups (namelist/getinfo) are data.",
+            "API-generated document, with all external answers recorded and replayed in the model. The whole Document(path) "
+            "call is covered: document_open_closed treats the eager construction of sheets and tables after the container is "
+            "loaded as one more stage that may raise ANYTHING (objects of a member kept as a blob are simply absent) and "
+            "proves the constructor's boundary closes it too; 881 of 26 000 damaged files of the thorough tier used to "
+            "escape there with KeyError / AttributeError (fix 945efed).",
+    "note": "scope: every exception that leaves Document(path) counts (the property's first sentence: opening either yields a "
+            "document or fails with a documented error type); before the extension phase exceptions raised after "
+            "ObjectStore.__init__ had returned were only counted (`late_failures`) - that was the check demanding less than "
+            "the statement. str.lower() is modelled for ASCII; in-memory ZipFile lookups (namelist/getinfo) are data.",
     "technique": "Lean 4 proof (case analysis on the translation boundary) + fault-injection correspondence with recorded externals",
 }
 ASSUMPTIONS = [
@@ -925,9 +930,16 @@ def observe(ctx: Ctx, path: Path, inp: dict, req: list, out: list, stats: dict, 
                       f"Document({inp.get('document')} with {inp.get('fault')}:{inp.get('kind', inp.get('length', ''))}) raised "
                       f"{type(exc).__module__}.{type(exc).__name__}: {str(exc)[:80]} (innermost library frame {where})", inp)
     elif kind == "late":
+        # the container decoded but Document(path) still did not return a document: "opening a path ... either yields a
+        # document or fails with one of the library's documented error types" - the constructor is part of opening
         stats.setdefault("late_failures_by_frame", {})
         key = f"{where}:{type(exc).__name__}"
         stats["late_failures_by_frame"][key] = stats["late_failures_by_frame"].get(key, 0) + 1
+        if stats["late_failures_by_frame"][key] <= 2:
+            ctx.violation("document-constructor:" + key,
+                          f"Document({inp.get('document')} with {inp.get('fault')}:{inp.get('kind', inp.get('length', ''))}) raised "
+                          f"{type(exc).__module__}.{type(exc).__name__}: {str(exc)[:80]} after the container had been loaded "
+                          f"(innermost library frame {where})", inp)
     if kind == "allowed":
         stats.setdefault("allowed_by_type", {})
         stats["allowed_by_type"][type(exc).__name__] = stats["allowed_by_type"].get(type(exc).__name__, 0) + 1
@@ -1087,6 +1099,43 @@ def scripted_suite(ctx: Ctx, base_zip: dict, base_pkg: dict):
     return len(scns)
 
 
+def docstage_suite(ctx: Ctx):
+    """the construction stage of Document(path) (sheet_ids / Sheet / Table construction over the decoded objects) made to
+    raise each exception class on an otherwise healthy document; outcome class compared with Model.Loader.openDocument"""
+    from numbers_parser import Document
+    from numbers_parser.model import _NumbersModel
+    path = str(REPO / "tests/data/test-1.numbers")
+    req, out = [], []
+    real = _NumbersModel.sheet_ids
+    for key in ["ok"] + sorted(exc_classes()):
+        if key == "MemoryError":
+            continue
+        cls = exc_classes().get(key)
+        is_warning = int(cls is not None and issubclass(cls, Warning))
+
+        def fake(self, _key=key):
+            if _key == "ok":
+                return real(self)
+            raise make_exc(_key)
+        _NumbersModel.sheet_ids = fake
+        try:
+            try:
+                Document(path)
+                o = "ok doc"
+            except Exception as e:  # noqa: BLE001
+                o = "err " + exc_name(e)
+                k, where, _ = classify(e)
+                if k != "allowed" and not isinstance(e, Warning):
+                    ctx.violation("document-constructor:scripted:" + type(e).__name__,
+                                  f"Document(test-1.numbers) let {type(e).__name__} escape when the construction of its sheets "
+                                  f"raised it", {"scripted_docstage": key})
+        finally:
+            _NumbersModel.sheet_ids = real
+        req.append(f"loader docstage 1 {is_warning} " + ("ok" if key == "ok" else exc_token(key)))
+        out.append(o)
+    ctx.correspond("construction stage of Document(path) made to raise each exception class (scripted)", req, out, exhaustive=True)
+
+
 def _class_of(name):
     for c in exc_classes().values():
         if c.__name__ == name:
@@ -1125,6 +1174,7 @@ def run(ctx: Ctx):
            run_scripted({k: v for k, v in base_pkg.items() if not k.startswith("exc_")})]
     ctx.correspond("healthy recordings (zip form, package form) replayed through scripted externals", req, out)
     n_scripted = scripted_suite(ctx, base_zip, base_pkg)
+    docstage_suite(ctx)
     ctx.extra["scripted_scenarios"] = n_scripted
     ctx.extra["seconds_scripted"] = round(time.time() - t0, 1)
 
